@@ -217,7 +217,7 @@ CHECKS = {
               " A quarter of the pace cases run through a proxy (one client)."),
         jobs=[dict(test="TestC05Enum", kind="enum", quick=1, thorough=1), dict(test="TestC05", quick=3200, thorough=20000), dict(test="TestC05IDs", quick=1280, thorough=8000), dict(test="TestC05Pace", quick=1200, thorough=12000, shards=4), dict(test="TestC05PaceReal", quick=96, thorough=1600, shards=8), dict(test="TestC05SharedMD", quick=480, thorough=6000, shards=4),
               dict(test="TestC05History", kind="enum", quick=1, thorough=1, shards=1), dict(test="TestC05Reuse", quick=200, thorough=2000, shards=4), dict(test="TestC05Left", quick=1600, thorough=16000), dict(test="TestC05Order", quick=1600, thorough=16000), dict(test="TestC05Abandon", quick=800, thorough=8000)],
-        floors={"TestC05:side=client": 0.25, "TestC05:side=server": 0.25, "TestC05:pooled_payloads=true": 0.3, "TestC05IDs:slow_handlers=true": 0.3, "TestC05IDs:spin_barrier=true": 0.4, "TestC05Pace:pace.slow_receiver=true": 0.5, "TestC05:high_ids=true": 0.2},
+        floors={"TestC05:side=client": 0.25, "TestC05:side=server": 0.25, "TestC05:pooled_payloads=true": 0.3, "TestC05IDs:slow_handlers=true": 0.3, "TestC05IDs:spin_barrier=true": 0.4, "TestC05Pace:pace.slow_receiver=true": 0.5, "TestC05Pace:pace.slow_open=true": 0.3, "TestC05:high_ids=true": 0.2},
         assumptions=COMMON_ASSUMPTIONS,
     ),
     "C14": dict(
